@@ -244,7 +244,31 @@ class Interp:
         return v
 
     def seq_slice(self, st, s, frm, to, from_end):
-        raise Unsupported("subslice pattern")
+        """slice pattern `[a, b, rest @ .., y, z]`: MIR Subslice { from, to, from_end } — with from_end the elements
+        from .. len - to, otherwise from .. to (arrays). The match has already checked the minimum length."""
+        usz = self.ctx.usize_ty()
+        if from_end:
+            cut = self.ctx.const_int(st, frm + to, usz)
+            lo_len = st.lo(s.len)
+            if lo_len < frm + to:
+                # reached only on the arm whose length test passed; intervals may not show it (e.g. after a join)
+                try:
+                    self.assume_cmp(st, "Ge", s.len.vid, cut.vid)
+                except Diverge:
+                    raise
+            newlen = self.binop(st, "Sub", s.len, cut, usz, False)
+            hi_keep = (st.const(s.len) - to) if st.const(s.len) is not None else None
+        else:
+            newlen = self.ctx.const_int(st, to - frm, usz)
+            hi_keep = to
+        head = None
+        if s.head:
+            head = {k - frm: v for k, v in s.head.items() if k >= frm and (hi_keep is None and to == 0 or (hi_keep is not None and k < hi_keep))}
+        data = None
+        if s.data is not None and st.const(newlen) is not None:
+            aid, off, ety, cnt = s.data
+            data = (aid, off + frm * self.prog.ty(ety).size_bytes(), ety, st.const(newlen))
+        return Sq(s.elem, newlen, head or None, data)
 
     def store_at(self, st, key, proj, val):
         if not proj:
@@ -757,6 +781,12 @@ class Interp:
                     mlo, mhi = min(la << hb2, la << lb2), max(ha << hb2, ha << lb2, 0)
                 if not (tlo <= mlo and mhi <= thi):
                     mlo, mhi = tlo, thi   # bits shifted out / sign change: give up precision
+                elif lb2 == hb2 and la >= 0 and lb2 > 0 and self.ctx.hooks.get("kbits_eager"):
+                    # a non-negative value shifted left by a constant without loss: its low bits are known zeros (rules working
+                    # in the known-bits domain follow such values through `as u8` and `|`)
+                    wbits = self.prog.ty(rty).bits()
+                    allw = (1 << wbits) - 1
+                    prov = ("kbits", (), ((((1 << lb2) - 1) | (allw & ~((1 << mhi.bit_length()) - 1))) & allw, 0))
             else:
                 if la >= 0:
                     mlo, mhi = la >> hb2, ha >> lb2
@@ -981,6 +1011,15 @@ class Interp:
                     if a.vid in st.res:
                         st.res[z.vid] = p_add(st.res[a.vid], p_const(lo - wl), -1)
                     return z
+            pk_ = st.prov.get(a.vid)
+            if (pk_ and pk_[0] == "kbits") or self.ctx.hooks.get("kbits_eager"):
+                sa = self.prog.ty(a.ty)
+                if sa.tag in ("Int", "Uint") and t.tag in ("Int", "Uint") and t.bits() < sa.bits():
+                    kb = self.kb_of(st, a, sa.bits())
+                    if kb is not None:
+                        allt = (1 << t.bits()) - 1
+                        if kb[0] & allt:
+                            return self.kbits_value(st, kb[0] & allt, kb[1] & allt, ty, taint)     # truncation keeps the low bits
             z = self.ctx.mk_int(st, tlo, thi, ty, taint=taint)
             st.prov[z.vid] = ("truncast", (a.vid,), None)
             return z
@@ -1035,6 +1074,27 @@ class Interp:
         if lo == 0 and hi == 1:
             return allb & ~1, 0            # a bool widened to an integer: every bit but the lowest is 0
         return None
+
+    def kbits_value(self, st, m2, v2, rty, taint):
+        """integer of type rty whose W-bit pattern has the known bits (m2, v2): interval implied by the pattern + provenance"""
+        t = self.prog.ty(rty)
+        W = t.bits()
+        allb = (1 << W) - 1
+        unk = allb & ~m2
+        lo_p, hi_p = v2, v2 | unk
+        if t.tag == "Int":
+            sb = 1 << (W - 1)
+            if m2 & sb:
+                lo, hi = (lo_p - (1 << W), hi_p - (1 << W)) if v2 & sb else (lo_p, hi_p)
+            else:
+                lo = ((v2 | sb) & allb) - (1 << W)
+                hi = (v2 | (unk & ~sb))
+        else:
+            lo, hi = lo_p, hi_p
+        z = self.ctx.mk_int(st, lo, hi, rty, taint=taint)
+        if m2 != allb:
+            st.prov[z.vid] = ("kbits", (), (m2, v2))
+        return z
 
     def kbits_binop(self, st, base, a, b, rty, taint):
         t = self.prog.ty(rty)
